@@ -64,6 +64,12 @@ func (pConn *PFCPConn) HandlePFCPMsg(buf []byte) {
 
 	pConn.handlerMu.Lock()
 	defer func() {
+		// The PFCP decoding library panics on some malformed IEs (e.g. PFD Contents,
+		// Outer Header Creation). One bad message must not take down the whole agent.
+		if r := recover(); r != nil {
+			logger.PfcpLog.Errorf("dropping message %v, recovered from panic: %v", buf, r)
+		}
+
 		pConn.handlerMu.Unlock()
 
 		if release {
